@@ -109,7 +109,7 @@ func VerifC06Concrete() {
 // Templates with expression holes (marked §) in every syntactic slot; the holes are filled
 // with symbolic Go identifiers, so the file stays acceptable to generate + gofmt.
 var verifHoleSeeds = []string{
-	"package p\n\ntempl a(§ string) {\n\t<div title={ § } hidden?={ §ok }>é { § }</div>\n}\n",
+	"// header §\n//go:build x\n\npackage p\n\ntempl a(§ string) {\n\t<div title={ § } hidden?={ §ok }>é { § }</div>\n}\n",
 	"package p\n\ntempl b(§ []string) {\n\tfor _, v := range § {\n\t\tif v == § {\n\t\t\t{ v }\n\t\t}\n\t}\n\t@c(§...)\n}\n\ntempl c(§ ...string) {\n}\n",
 }
 
@@ -151,4 +151,51 @@ func VerifC06Holes() {
 	if err == nil {
 		verifCheckRanges(input, tf)
 	}
+}
+
+// VerifC06Truncated: every truncation of every seed, optionally followed by one symbolic byte:
+// input that ends in the middle of a construct is where go/parser-synthesised nodes and
+// Seek/Peek arithmetic go out of bounds.
+func VerifC06Truncated() {
+	all := append(append([]string{}, verifSeeds...), verifHoleSeedsFilled()...)
+	seed := all[symChoose(len(all))]
+	cut := symChoose(len(seed) + 1)
+	input := seed[:cut]
+	if symParam("TAIL") == 1 && symBool("tail") {
+		input += symString("t", 1)
+	}
+	var err error
+	panicked := false
+	func() {
+		defer func() {
+			if r := recover(); r != nil {
+				panicked = true
+			}
+		}()
+		_, err = ParseString(input)
+	}()
+	symCover("truncated")
+	symAssert(!panicked, "parsing a truncated file never panics")
+	if err != nil {
+		if pe, ok := err.(parse.ParseError); ok {
+			symAssert(pe.Pos.Index >= 0 && pe.Pos.Index <= len(input), "error position lies inside the input")
+		}
+	}
+}
+
+func verifHoleSeedsFilled() []string {
+	var out []string
+	for _, s := range verifHoleSeeds {
+		f := ""
+		for i := 0; i < len(s); i++ {
+			if s[i] == 0xC2 && i+1 < len(s) && s[i+1] == 0xA7 {
+				f += "x"
+				i++
+				continue
+			}
+			f += string(s[i])
+		}
+		out = append(out, f)
+	}
+	return out
 }
